@@ -5,7 +5,7 @@ from ..gen import histories as H, sqlite_factory as F
 from . import dbcommon as C, specvalid as V
 
 ID = "C06"
-LEAN_MODULES = ["SqliteDissect.Properties.C06", "SqliteDissect.Properties.C16", "SqliteDissect.Properties.C01Tree"]
+LEAN_MODULES = ["SqliteDissect.Properties.C06", "SqliteDissect.Properties.C06Census", "SqliteDissect.Properties.C16", "SqliteDissect.Properties.C01Tree"]
 RULE = ("factory databases (grid as C01, churn leaving freeblocks / fragments / freelist pages / pointer-map pages) "
         "and WAL histories; per version the page census (version.pages) and every b-tree page layout are compared "
         "with the Lean model and with SQLite's dbstat, page_count, freelist_count and integrity_check. "
